@@ -393,6 +393,81 @@ def run_misuse(ses):
                 tests.append(('%s model uses %s with an operand of a second %s model (foreign operand %s)'
                               % (fa, cname, fb, 'last' if pos == 'ab' else 'first'), t_mix))
 
+    # products of a decision of one model with a RANDOM variable of another (every operator, both operand orders), used in a
+    # constraint or as the objective itself; and plain foreign expressions handed to the objective methods
+    def mkr(front):
+        m = ro.Model() if front == 'ro' else dro.Model(2)
+        x = m.dvar(2)
+        z = m.rvar(2)
+        if front == 'ro':
+            return m, x, z, (z >= -1, z <= 1)
+        F = m.ambiguity()
+        F.suppset(z >= -1, z <= 1)
+        return m, x, z, F
+    PROD = {'x @ z': lambda x, z: x @ z, 'z @ x': lambda x, z: z @ x, '(x * z).sum()': lambda x, z: (x * z).sum(),
+            '(z * x).sum()': lambda x, z: (z * x).sum(), 'x[0] * z[1]': lambda x, z: x[0] * z[1], 'z[1] * x[0]': lambda x, z: z[1] * x[0],
+            'x.sum() + z.sum()': lambda x, z: x.sum() + z.sum(), 'z.sum() + x.sum()': lambda x, z: z.sum() + x.sum()}
+    for fa, fb in itertools.product(('ro', 'dro'), repeat=2):
+        for pname, prod in PROD.items():
+            for use in ('constraint', 'objective'):
+                def t_prod(fa=fa, fb=fb, prod=prod, use=use):
+                    m1, x1, z1, S1 = mkr(fa)
+                    m2, x2, z2, S2 = mkr(fb)
+                    e = prod(x1, z2)
+                    if use == 'constraint':
+                        m1.st(e <= 1)
+                        (m1.minmax(x1.sum(), *S1) if fa == 'ro' else m1.minsup(x1.sum(), S1))
+                    else:
+                        (m1.minmax(e, *S1) if fa == 'ro' else m1.minsup(e, S1))
+                    m1.st(x1 >= 0, x1 <= 1)
+                    m1.do_math()
+                tests.append(('%s model uses %s with its own decision x and the random variable z of a second %s model, as %s'
+                              % (fa, pname, fb, use), t_prod))
+    for fa, fb in itertools.product(('lp', 'ro', 'dro'), repeat=2):
+        for sense in ('min', 'max'):
+            def t_obj(fa=fa, fb=fb, sense=sense):
+                m1, x1 = mkf(fa)
+                m2, x2 = mkf(fb)
+                getattr(m1, sense)(x2.sum())
+                m1.st(x1 >= 0, x1 <= 1) if fa != 'lp' else (m1.st(x1 >= 0), m1.st(x1 <= 1))
+                m1.do_math()
+            tests.append(('%s model: %s() of an expression of a second %s model' % (fa, sense, fb), t_obj))
+
+    def t_get_foreign_rvar():
+        mA = ro.Model()
+        xA = mA.dvar()
+        zA = mA.rvar(2)
+        y = mA.ldr()
+        y.adapt(zA)
+        mA.minmax(xA, zA >= 0, zA <= 1)
+        mA.st(xA >= y, y >= zA.sum(), y <= 5)
+        mA.solve(display=False)
+        zB = ro.Model().rvar(2)
+        y.get(zB)
+    tests.append(('ro: coefficients of a decision rule requested for the random variable of ANOTHER model: y.get(zB)', t_get_foreign_rvar))
+
+    def t_adapt_foreign_scen():
+        dA = dro.Model(3)
+        u = dA.dvar()
+        dB = dro.Model(3)
+        fB = dB.ambiguity()
+        u.adapt(fB[1])
+    tests.append(('dro: event-wise adaptation declared with the scenarios of ANOTHER model\'s ambiguity set: u.adapt(fB[1])', t_adapt_foreign_scen))
+
+    def t_adapt_foreign_rvar():
+        dA = dro.Model(2)
+        u = dA.dvar()
+        zB = dro.Model(2).rvar(2)
+        u.adapt(zB)
+    tests.append(('dro: affine adaptation declared with the random variable of ANOTHER model: u.adapt(zB)', t_adapt_foreign_rvar))
+
+    def t_ldr_adapt_foreign_rvar():
+        mA = ro.Model()
+        y = mA.ldr(2)
+        zB = ro.Model().rvar(2)
+        y.adapt(zB)
+    tests.append(('ro: decision rule adapted to the random variable of ANOTHER model: y.adapt(zB)', t_ldr_adapt_foreign_rvar))
+
     def t_amb_after():
         m = dro.Model(2)
         x = m.dvar(2)
